@@ -193,6 +193,14 @@ def run_case(spec):
             v.inconc('no-user-statements')
             return v.export()
         addr = rng.choice(user_stmt)
+        first_kind = None
+        slc = set(prep.b.side.get('same_line_callee_lines') or [])
+        if slc and rng.random() < 0.3:
+            # a line that invokes a closure defined on the same line: the callee's first line is the call line
+            cands = [a for a in user_stmt if any(l in slc for _, l in ref.stmt.get(a, []))]
+            if cands:
+                addr = rng.choice(cands)
+                first_kind = 'step'
         hits = len(T.by_pc()[addr])
         occ = rng.randrange(min(hits, 6))
         k, rep = run_to(S, ref, addr, occ, -1, v)
@@ -222,6 +230,8 @@ def run_case(spec):
         weights = rng.choice([(4, 3, 3, 1), (1, 4, 4, 2), (6, 1, 1, 1), (1, 1, 6, 2)])
         for _ in range(n):
             kind = rng.choices(['stepi', 'step', 'next', 'finish'], weights=weights)[0]
+            if first_kind:
+                kind, first_kind = first_kind, None
             # do not walk out of user code: the reference line table covers user units only
             sp = ref.func_at(T.pc[k])
             if sp is None or not ref.is_user_fn(sp):
